@@ -132,7 +132,7 @@ MUTANTS = [
     ("c14_onset_no_validate", "C14", "mir_eval/onset.py", "    validate(reference_onsets, estimated_onsets)\n    # If either list is empty, return 0s", "    # If either list is empty, return 0s"),
     ("c14_assertion_error", "C14", "mir_eval/util.py", "        raise ValueError(\"Negative interval times found\")", "        raise AssertionError(\"Negative interval times found\")"),
     ("c14_cemgil_empty", "C14", "mir_eval/beat.py", "    if estimated_beats.size == 0 or reference_beats.size == 0:\n        return 0.0, 0.0\n    # We'll compute Cemgil's accuracy for each variation\n    accuracies = []", "    accuracies = []"),
-    ("c14_chord_validate_est", "C14", "mir_eval/chord.py", "    for labels in [reference_labels, estimated_labels]:\n        for chord_label in labels:\n            validate_chord_label(chord_label)", "    for labels in [reference_labels]:\n        for chord_label in labels:\n            validate_chord_label(chord_label)"),
+    # (c14_chord_validate_est dropped: equivalent mutant -- split()/encode() validate every label again)
     ("c14_coincidence", "C14", "mir_eval/util.py", "        last_idx = np.argwhere(intervals[:, 0] >= t_max)", "        last_idx = np.argwhere(intervals[:, 0] > t_max)"),
     ("c14_coincidence_tmin", "C14", "mir_eval/util.py", "        first_idx = np.argwhere(intervals[:, 1] > t_min)", "        first_idx = np.argwhere(intervals[:, 1] >= t_min)"),
     ("c14_pscore_nan", "C14", "mir_eval/beat.py", "    if annotation_intervals.size == 0:\n        return 0.0\n", ""),
